@@ -75,6 +75,24 @@ class Ctx:
         with open(os.path.join(self.gen, name), 'w') as f:
             f.write(text)
 
+    def probe(self, includes, exprs, std='c++14'):
+        """R4: values of compile-time constants are obtained by compiling a probe against /repo's real headers (never copied by hand);
+        returns the printed values (as strings, one per expression, each cast to unsigned long long)"""
+        key = re.sub(r'\W+', '_', '_'.join(exprs))[:60]
+        src = os.path.join(self.scratch, 'probe_%s.cpp' % key)
+        with open(src, 'w') as f:
+            f.write(''.join('#include <%s>\n' % i for i in includes) + '#include <cstdio>\nint main(){' +
+                    ''.join('printf("%%llu\\n", (unsigned long long)(%s));' % e for e in exprs) + '}\n')
+        exe = src[:-4] + '.out'
+        p = subprocess.run(['g++', '-std=' + std, '-w', '-I', REPO, '-I', os.path.join(REPO, 'dispenso/third-party'), src, '-o', exe, '-lpthread'], capture_output=True, text=True)
+        if p.returncode != 0:
+            raise X.ExtractionError('probe for %s failed: %s' % (', '.join(exprs), p.stderr[-300:]))
+        out = subprocess.run([exe], capture_output=True, text=True).stdout.split()
+        if len(out) != len(exprs):
+            raise X.ExtractionError('probe for %s printed %r' % (', '.join(exprs), out))
+        self.extract_log.append(dict(rule='R4', what='probe', exprs=list(exprs), values=out))
+        return out
+
 
 def limit():
     resource.setrlimit(resource.RLIMIT_AS, (MEM_LIMIT, MEM_LIMIT))
@@ -129,6 +147,33 @@ def run_cbmc(u, ctx):
         cmd2 += ['--apply-loop-contracts']
     cmd2 += [gb, ib]
     rc, out, err, s2 = sh(cmd2, 300)
+    if rc != 0 and u.loop_contracts and u.unwind is not None and 'Found loop without contract nested in a loop with a contract' in (err + out):
+        # a loop without a contract inside a contracted loop (e.g. a small inner batch): unwind exactly the loops of the verified
+        # function whose head carries no __CPROVER_loop_invariant, u.unwind times with unwinding assertions, then apply the contracts.
+        # (a bound that is too small fails an unwinding assertion = undecided, see finish_unit)
+        rc0, out0, err0, _ = sh(['goto-instrument', '--show-loops', '--json-ui', gb], 120)
+        ids = []
+        try:
+            for e in json.loads(out0):
+                for lp in e.get('loops', []) if isinstance(e, dict) else []:
+                    loc = lp.get('sourceLocation', {})
+                    if loc.get('function') != u.function:
+                        continue
+                    fpath = loc.get('file', '')
+                    fpath = fpath if os.path.isabs(fpath) else os.path.join(loc.get('workingDirectory', ''), fpath)
+                    lines = open(fpath).read().split('\n')
+                    ln = int(loc.get('line', '0'))
+                    if '__CPROVER_loop_invariant' not in ' '.join(lines[max(0, ln - 1):ln + 1]):
+                        ids.append(lp['name'])
+        except Exception as ex:
+            ids = []
+        if ids:
+            gb1 = os.path.join(work, 'a1.gb')
+            rc1, out1, err1, _ = sh(['goto-instrument', '--unwindset', ','.join('%s:%d' % (i, u.unwind) for i in ids), '--unwinding-assertions', gb, gb1], 300)
+            if rc1 == 0:
+                u.assumptions = list(getattr(u, 'assumptions', []) or []) + ['loops without a contract (%s) unwound %d times with unwinding assertions before the loop contracts were applied' % (', '.join(ids), u.unwind)]
+                cmd2[-2] = gb1
+                rc, out, err, s2 = sh(cmd2, 300)
     if rc != 0:
         u.status, u.note = 'undecided', 'goto-instrument failed: ' + (err or out)[-1500:]
         return
@@ -251,8 +296,12 @@ def finish_unit(u):
     if any(o['status'] == 'unknown' for o in gating):
         u.status = 'undecided'
         u.note = 'solver returned unknown/timeout on: ' + ', '.join(o['name'] for o in gating if o['status'] == 'unknown')[:600]
+    elif any(o['status'] == 'failed' and o['cls'] != 'unwind' for o in gating):
+        u.status = 'failed'          # executions up to the bound are real executions: a failure found there stands
     elif any(o['status'] == 'failed' for o in gating):
-        u.status = 'failed'
+        # only unwinding assertions failed: the bound is too small for this code, which says nothing about the property
+        u.status = 'undecided'
+        u.note = 'unwinding bound too small: ' + ', '.join(o['name'] for o in gating if o['status'] == 'failed')[:400]
     else:
         u.status = 'proved'
 
@@ -342,6 +391,8 @@ def load_findings(prop):
 
 # ------------------------------------------------------------------ replay
 _replay_lib = {}
+_replay_cache = {}
+_replay_lock = None
 
 
 def build_replay_lib(ctx):
@@ -393,11 +444,18 @@ def do_replay(prop, u, o, ctx, outdir):
             lib = build_replay_lib(ctx)
             cmd = ['g++', '-std=c++17', '-O1', '-g', '-w', '-I', REPO, '-I', os.path.join(REPO, 'dispenso/third-party')] + \
                   u.replay.get('cxxflags', []) + srcs + ([lib] if lib else []) + u.replay.get('link', []) + ['-o', exe, '-lpthread']
-            rc, out, err, _ = sh(cmd, 600)
-            if rc != 0:
+            key = (u.replay['prog'], tuple(str(a) for a in args))
+            if key in _replay_cache:          # one native run per (program, arguments) and check run, shared by all obligations
+                rc, out, err = _replay_cache[key]
+                brc = 0
+            else:
+                brc, out, err, _ = sh(cmd, 600)
+                if brc == 0:
+                    rc, out, err, _ = sh([exe] + [str(a) for a in args], 180, rlimit=not u.replay.get('no_rlimit'))
+                    _replay_cache[key] = (rc, out, err)
+            if brc != 0:
                 text = 'replay build failed: ' + err[-800:]
             else:
-                rc, out, err, _ = sh([exe] + [str(a) for a in args], 120, rlimit=not u.replay.get('no_rlimit'))
                 text = (out + err)[-1500:]
                 rec['replay_cmd'] = ' '.join(['g++ ... %s -o replay.out &&' % u.replay['prog'], 'replay.out'] + [str(a) for a in args])
                 if rc == 1 or rc < 0 or rc >= 128 or rc == 134:
@@ -470,7 +528,7 @@ def run(prop, tier, scratch, ev_path, a, t00):
     violations, known, undecided = [], [], []
     for u in units:
         if u.status == 'failed':
-            fails = [o for o in u.obls if o['status'] == 'failed' and o['cls'] not in u.nonprop_cls]
+            fails = [o for o in u.obls if o['status'] == 'failed' and o['cls'] not in u.nonprop_cls and o['cls'] != 'unwind']
             fnd = [f for f in findings if re.fullmatch(f['unit'], u.name) and all(any(re.fullmatch(f2['obl'], o['name']) for f2 in findings if re.fullmatch(f2['unit'], u.name)) for o in fails)]
             if fnd:
                 # residual obligation: same unit with the listed failing-input class excluded
@@ -488,7 +546,7 @@ def run(prop, tier, scratch, ev_path, a, t00):
                     u.obls_first = u.obls
                     u.obls = u2.obls
                     u.note = 'residual obligation (known finding excluded: %s) still fails' % excl
-                    fails = [o for o in u.obls if o['status'] == 'failed' and o['cls'] not in u.nonprop_cls]
+                    fails = [o for o in u.obls if o['status'] == 'failed' and o['cls'] not in u.nonprop_cls and o['cls'] != 'unwind']
                 else:
                     u.status, u.note = 'undecided', 'residual run undecided: ' + u2.note
                     undecided.append(u)
@@ -524,7 +582,7 @@ def run(prop, tier, scratch, ev_path, a, t00):
         tail = '' if reproduced else ' no-failing-input-found'
         print("  failed obligation %s [%s] (%s) ce=%s" % (o['name'], u.name + ('[' + u.inst + ']' if u.inst else ''), o['desc'], json.dumps(o['ce'], default=str)[:300]))
         if text:
-            print("  replay: " + text.strip().replace('\n', '\n          ')[:700])
+            print("  replay: " + text.strip()[-700:].replace('\n', '\n          '))
         print("VIOLATION property=%s replay=%s%s" % (prop, path, tail))
         rc = 1
     if rc == 0 and undecided:
